@@ -1,13 +1,410 @@
 package gofe
 
-import "golang.org/x/tools/go/ssa"
+import (
+	"fmt"
 
-// scheduler is the symbolic scheduler (see sched_impl.go once present).
-type scheduler struct{ x *Exec }
+	"github.com/goplus/llgo/zz_verif_symx/core"
+	"github.com/goplus/llgo/zz_verif_symx/smt"
+	"golang.org/x/tools/go/ssa"
+)
 
-func newScheduler(x *Exec) *scheduler { return &scheduler{x: x} }
+// Symbolic scheduler.  Harness threads are `go` statements; exactly one thread
+// runs at a time (host goroutines with baton passing).  Scheduling points are
+// the synchronisation intrinsics (mutex lock, condition wait/signal, atomics,
+// thread start/exit).  At every point the next thread is a solver-level choice
+// (Machine.Branch on a fresh variable), so the path exploration enumerates all
+// interleavings at that granularity, including spurious condition wake-ups.
 
-func (s *scheduler) spawn(fr *frame, i *ssa.Go) { s.x.unsupported("go statement (scheduler not built yet)") }
-func (s *scheduler) finish()                  {}
+type threadKill struct{}
 
-func (s *scheduler) current() int { return 0 }
+type thread struct {
+	id        int
+	wake      chan struct{}
+	done      bool
+	started   bool
+	blockedOn uint64 // mutex address the thread waits for (0 = none)
+	waitCond  uint64 // condition variable the thread waits on (0 = none)
+	signalled bool
+	joining   bool
+	frame     *frame
+	spurious  int
+}
+
+type scheduler struct {
+	x         *Exec
+	threads   []*thread
+	cur       int
+	owner     map[uint64]int // mutex -> owning thread
+	steps     int
+	abort     interface{}
+	killed    bool
+	Spurious  int // spurious wake-ups allowed per wait
+	MaxSteps  int
+	deadlock  bool
+	Switches  int
+	Preempt   int // preemption bound (-1 = unbounded)
+	preempts  int
+}
+
+func newScheduler(x *Exec) *scheduler {
+	s := &scheduler{x: x, owner: map[uint64]int{}, MaxSteps: x.Cfg.SchedSteps, Spurious: x.Cfg.Spurious, Preempt: x.Cfg.Preempt}
+	if s.MaxSteps == 0 {
+		s.MaxSteps = 400
+	}
+	s.threads = []*thread{{id: 0, wake: make(chan struct{}, 1), started: true}}
+	return s
+}
+
+func (s *scheduler) current() int { return s.cur }
+
+func (s *scheduler) me() *thread { return s.threads[s.cur] }
+
+// spawn creates a thread for a go statement.
+func (s *scheduler) spawn(fr *frame, i *ssa.Go) {
+	x := s.x
+	cc := &i.Call
+	args := make([]Value, len(cc.Args))
+	for k, a := range cc.Args {
+		args[k] = x.get(fr, a)
+	}
+	var run func()
+	switch f := cc.Value.(type) {
+	case *ssa.Function:
+		run = func() { x.call(nil, f, args, nil) }
+	case *ssa.MakeClosure:
+		fn := f.Fn.(*ssa.Function)
+		bindings := make([]Value, len(f.Bindings))
+		for k, b := range f.Bindings {
+			bindings[k] = x.get(fr, b)
+		}
+		run = func() { x.call(nil, fn, args, bindings) }
+	default:
+		fv := x.get(fr, cc.Value)
+		run = func() {
+			fn, ctx := x.resolveFunc(fv)
+			x.callClosure(nil, fn, ctx, args, false)
+		}
+	}
+	s.spawnFunc(run)
+}
+
+func (s *scheduler) spawnFunc(run func()) {
+	t := &thread{id: len(s.threads), wake: make(chan struct{}, 1)}
+	s.threads = append(s.threads, t)
+	go func() {
+		<-t.wake
+		defer func() {
+			r := recover()
+			if _, ok := r.(threadKill); ok {
+				return
+			}
+			if r != nil {
+				// path end, internal error or uncaught Go panic: abort the path
+				if s.abort == nil {
+					s.abort = r
+				}
+				s.killAll(t)
+				return
+			}
+		}()
+		if s.killed {
+			return
+		}
+		t.started = true
+		run()
+		t.done = true
+		s.switchAway(t)
+	}()
+}
+
+// killAll wakes every blocked thread so that it unwinds; thread 0 re-raises abort.
+func (s *scheduler) killAll(except *thread) {
+	s.killed = true
+	for _, t := range s.threads {
+		if t != except && !t.done {
+			select {
+			case t.wake <- struct{}{}:
+			default:
+			}
+		}
+	}
+}
+
+func (s *scheduler) checkKilled(t *thread) {
+	if s.killed {
+		if t.id == 0 {
+			if s.abort != nil {
+				a := s.abort
+				s.abort = nil
+				panic(a)
+			}
+			return
+		}
+		panic(threadKill{})
+	}
+}
+
+// enabled lists the threads that can take a step (and whether taking it
+// consumes a spurious wake-up).
+func (s *scheduler) enabled() (ids []int, spur []bool) {
+	for _, t := range s.threads {
+		if t.done {
+			continue
+		}
+		switch {
+		case t.joining:
+			all := true
+			for _, o := range s.threads {
+				if o != t && !o.done {
+					all = false
+				}
+			}
+			if all {
+				ids, spur = append(ids, t.id), append(spur, false)
+			}
+		case t.waitCond != 0:
+			if t.signalled {
+				ids, spur = append(ids, t.id), append(spur, false)
+			} else if t.spurious < s.Spurious {
+				ids, spur = append(ids, t.id), append(spur, true)
+			}
+		case t.blockedOn != 0:
+			if _, held := s.owner[t.blockedOn]; !held {
+				ids, spur = append(ids, t.id), append(spur, false)
+			}
+		default:
+			ids, spur = append(ids, t.id), append(spur, false)
+		}
+	}
+	return
+}
+
+// choose picks the next thread among the enabled ones (solver-level choice).
+// Switching away from a thread that could itself continue is a preemption;
+// at most Preempt of them are explored per path (context bound, stated in the
+// evidence) — switches at blocking points are free.
+func (s *scheduler) choose() (int, bool) {
+	ids, spur := s.enabled()
+	if len(ids) == 0 {
+		return -1, false
+	}
+	if s.Preempt >= 0 {
+		for k, id := range ids {
+			if id == s.cur && !spur[k] && s.preempts >= s.Preempt {
+				return id, false // budget used up: the running thread continues
+			}
+		}
+	}
+	curEnabled := false
+	for k, id := range ids {
+		if id == s.cur && !spur[k] {
+			curEnabled = true
+		}
+	}
+	pick := func() (int, bool) {
+		for k := 0; k < len(ids)-1; k++ {
+			if s.x.M.Branch(s.x.M.Fresh("sched", 0)) {
+				return ids[k], spur[k]
+			}
+		}
+		return ids[len(ids)-1], spur[len(ids)-1]
+	}
+	id, sp := pick()
+	if curEnabled && id != s.cur {
+		s.preempts++
+	}
+	return id, sp
+}
+
+func (s *scheduler) chooseOld() (int, bool) {
+	ids, spur := s.enabled()
+	if len(ids) == 0 {
+		return -1, false
+	}
+	for k := 0; k < len(ids)-1; k++ {
+		if s.x.M.Branch(s.x.M.Fresh("sched", 0)) {
+			return ids[k], spur[k]
+		}
+	}
+	return ids[len(ids)-1], spur[len(ids)-1]
+}
+
+// yield is a scheduling point of the running thread (which stays enabled or
+// has just updated its blocking status).
+func (s *scheduler) yield() {
+	t := s.me()
+	s.steps++
+	if s.steps > s.MaxSteps {
+		s.x.M.Inconclusive("unwind.sched", fmt.Sprintf("more than %d scheduling points on one path", s.MaxSteps))
+		s.x.M.EndPath("unwind")
+	}
+	s.switchAway(t)
+}
+
+// switchAway hands the baton to a chosen enabled thread (possibly t itself).
+func (s *scheduler) switchAway(t *thread) {
+	t.frame = s.x.curFrame
+	next, sp := s.choose()
+	if next < 0 {
+		// nobody can run: deadlock.  The main thread observes it.
+		s.deadlock = true
+		main := s.threads[0]
+		if main.done {
+			return
+		}
+		next = 0
+		main.joining, main.blockedOn, main.waitCond = false, 0, 0
+	}
+	nt := s.threads[next]
+	if sp {
+		nt.spurious++
+	}
+	if nt.waitCond != 0 {
+		nt.waitCond, nt.signalled = 0, false
+	}
+	s.Switches++
+	if nt == t {
+		return
+	}
+	s.cur = next
+	nt.wake <- struct{}{}
+	if t.done {
+		return
+	}
+	<-t.wake
+	s.checkKilled(t)
+	s.x.curFrame = t.frame
+}
+
+// ---- primitives -----------------------------------------------------------------
+
+func (s *scheduler) lock(m uint64) {
+	t := s.me()
+	for {
+		t.blockedOn = m
+		s.yield()
+		if _, held := s.owner[m]; !held {
+			s.owner[m] = t.id
+			t.blockedOn = 0
+			return
+		}
+	}
+}
+
+func (s *scheduler) unlock(m uint64) {
+	t := s.me()
+	if o, held := s.owner[m]; !held || o != t.id {
+		s.x.M.Assert(smt.False, "sched.unlock", "unlock of a mutex that the thread does not hold", "assert")
+	}
+	delete(s.owner, m)
+}
+
+func (s *scheduler) wait(c, m uint64) {
+	t := s.me()
+	s.unlock(m)
+	t.waitCond, t.signalled = c, false
+	s.yield()
+	// woken (signal or spurious): re-acquire the mutex
+	s.lock(m)
+}
+
+func (s *scheduler) signal(c uint64, all bool) {
+	var ws []*thread
+	for _, t := range s.threads {
+		if !t.done && t.waitCond == c && !t.signalled {
+			ws = append(ws, t)
+		}
+	}
+	if len(ws) == 0 {
+		return
+	}
+	if all {
+		for _, w := range ws {
+			w.signalled = true
+		}
+		return
+	}
+	// pthread_cond_signal wakes at least one waiter: which one is a choice
+	for k := 0; k < len(ws)-1; k++ {
+		if s.x.M.Branch(s.x.M.Fresh("sigpick", 0)) {
+			ws[k].signalled = true
+			return
+		}
+	}
+	ws[len(ws)-1].signalled = true
+}
+
+// join blocks the main thread until every other thread is done; returns true
+// when the program deadlocked instead.
+func (s *scheduler) join() bool {
+	t := s.me()
+	t.joining = true
+	s.yield()
+	t.joining = false
+	return s.deadlock
+}
+
+// finish is called when the harness function returns.
+func (s *scheduler) finish() {
+	s.killAll(s.threads[0])
+}
+
+func (x *Exec) schedOrNil() *scheduler { return x.sched }
+
+func registerSchedIntrinsics(x *Exec) {
+	in := x.Intrinsic
+	const pSync = "github.com/goplus/llgo/runtime/internal/clite/pthread/sync."
+	addr := func(x *Exec, v Value, what string) uint64 { return x.concretize(v.(*smt.Term), what) }
+	i32 := func(v uint64) Value { return smt.Const(32, v) }
+	in["(*"+pSync+"Mutex).Init"] = func(x *Exec, fr *frame, a []Value, _ *ssa.CallCommon) Value { return i32(0) }
+	in["(*"+pSync+"Mutex).Destroy"] = func(x *Exec, fr *frame, a []Value, _ *ssa.CallCommon) Value { return nil }
+	in["(*"+pSync+"Mutex).Lock"] = func(x *Exec, fr *frame, a []Value, _ *ssa.CallCommon) Value {
+		if x.sched != nil {
+			x.sched.lock(addr(x, a[0], "mutex"))
+		}
+		return nil
+	}
+	in["(*"+pSync+"Mutex).Unlock"] = func(x *Exec, fr *frame, a []Value, _ *ssa.CallCommon) Value {
+		if x.sched != nil {
+			x.sched.unlock(addr(x, a[0], "mutex"))
+		}
+		return nil
+	}
+	in["(*"+pSync+"Cond).Init"] = func(x *Exec, fr *frame, a []Value, _ *ssa.CallCommon) Value { return i32(0) }
+	in["(*"+pSync+"Cond).Destroy"] = func(x *Exec, fr *frame, a []Value, _ *ssa.CallCommon) Value { return nil }
+	in["(*"+pSync+"Cond).Wait"] = func(x *Exec, fr *frame, a []Value, _ *ssa.CallCommon) Value {
+		if x.sched == nil {
+			// single thread waiting on a condition: nobody can ever signal
+			x.sched = newScheduler(x)
+		}
+		x.sched.wait(addr(x, a[0], "cond"), addr(x, a[1], "mutex"))
+		return i32(0)
+	}
+	in["(*"+pSync+"Cond).Signal"] = func(x *Exec, fr *frame, a []Value, _ *ssa.CallCommon) Value {
+		if x.sched != nil {
+			x.sched.signal(addr(x, a[0], "cond"), false)
+		}
+		return i32(0)
+	}
+	in["(*"+pSync+"Cond).Broadcast"] = func(x *Exec, fr *frame, a []Value, _ *ssa.CallCommon) Value {
+		if x.sched != nil {
+			x.sched.signal(addr(x, a[0], "cond"), true)
+		}
+		return i32(0)
+	}
+	in["(*"+pSync+"Once).Do"] = func(x *Exec, fr *frame, a []Value, _ *ssa.CallCommon) Value {
+		// pthread_once: run f exactly once per control block
+		o := addr(x, a[0], "once")
+		if x.onceDone == nil {
+			x.onceDone = map[uint64]bool{}
+		}
+		if !x.onceDone[o] {
+			x.onceDone[o] = true
+			fn, ctx := x.resolveFunc(a[1])
+			x.callClosure(fr, fn, ctx, nil, false)
+		}
+		return i32(0)
+	}
+}
+
+var _ = core.Zero
